@@ -115,8 +115,10 @@ class _Renamer(ast.NodeTransformer):
 class VMaybeUnbound(V):
     """a local that only the body of a contract-governed loop binds: unbound while no iteration has run, unknown afterwards"""
 
-    def __init__(self, name, is_for):
+    def __init__(self, name, is_for, last=None, count=None, prev=None):
         self.name, self.is_for = name, is_for
+        self.prev = prev        # value before the loop, if the name was bound then
+        self.last, self.count = last, count     # after the loop: value of the last iteration (thunk) and the number of iterations
 
     def __repr__(self):
         return f"<maybe-unbound {self.name}>"
@@ -819,6 +821,25 @@ class ContractSet:
                 loc[p] = va.items[k]
         sfr = self.clause_frame(c, loc)
         caller = I.verifying
+        # implicit pre-condition: a parameter the contract does not mention was verified at its default value only
+        a_ = fv.node.args
+        pos_ = a_.posonlyargs + a_.args
+        defaults_ = dict(zip([p_.arg for p_ in pos_[len(pos_) - len(a_.defaults):]], a_.defaults))
+        defaults_.update({p_.arg: d_ for p_, d_ in zip(a_.kwonlyargs, a_.kw_defaults) if d_ is not None})
+        for pn, dnode in defaults_.items():
+            if pn in c.params or pn in c.bind or pn in c.bind_kwargs or pn not in loc or pn in ("self", "cls"):
+                continue
+            if not isinstance(dnode, ast.Constant):
+                continue
+            try:
+                same = ops.eq_values(I, loc[pn], I.ev(dnode, Frame(c.module, locals={}, func="<spec>")))
+            except Unsupported:
+                continue
+            if same.c is True:
+                continue
+            P.oblige(f"{caller}.call.{c.target.split('.', 1)[-1]}.pre.default.{pn}", same.term(),
+                     {"clause": f"{pn} == {ast.unparse(dnode)} (the contract of {c.target.split('.')[-1]} covers the default of `{pn}` only)", "callee": c.target})
+            P.assume(same.term())
         # implicit pre-condition: an argument the contract types as an object of class Q is an instance of Q
         for pn, pt in c.params.items():
             if pn in loc and isinstance(pt, str) and (pt.startswith("obj:") or pt.startswith("sub:")):
@@ -1166,6 +1187,7 @@ class ContractSet:
         which = P.choose(2, f"loop{k}")
         # havoc
         pre_vals = {n: fr.locals[n] for n in hav_names}
+        target_prev = fr.locals.get(node.target.id) if is_for and isinstance(node.target, ast.Name) else None
         for n in hav_names:
             if n in lc.get("define", {}):
                 continue
@@ -1285,6 +1307,14 @@ class ContractSet:
         # loop exit
         if is_for:
             P.assume(ops.int_cmp("==", fr.locals["_i"], dom["n"]).term())
+            if isinstance(node.target, ast.Name):
+                # the loop variable keeps the last element (unbound if there was no iteration); decided when it is read
+                n_exit = dom["n"]
+                prev_ = target_prev
+                if isinstance(prev_, VMaybeUnbound):
+                    prev_ = None
+                fr.locals[node.target.id] = VMaybeUnbound(node.target.id, True, count=n_exit, prev=prev_,
+                                                          last=lambda: dom["elem"](ops._arith(I, "-", n_exit, mkint(1))))
             ends = dom.get("raises_at_end") or []
             if ends:
                 kk = P.choose(1 + len(ends), "generator_end")
